@@ -24,7 +24,7 @@ PROP = "C09"
 def run(ctx):
     repo = ctx.repo
     res = Result(PROP)
-    res.rules = ["K1", "K2", "K5", "K-CANON", "K-ZIP", "K-FACEID", "M-MAP", "K3(info)"]
+    res.rules = ["K1", "K2", "K5", "K-CANON", "K-ZIP", "K-FACEID", "K-PAIR", "M-MAP", "K3(info)"]
     res.explanation = (
         "Abstract interpretation of every function of the structural-measure modules over ID / position kinds and the "
         "container shapes built from them (sa/kinds.py): each subscript is checked for a label used as a position or a "
@@ -53,6 +53,12 @@ def run(ctx):
                      "def _faces(members):\n    return {c for c in combinations(members, 2)}\n",
                      lambda nd: f"`{unparse(nd, 60)}` uses the tuples produced by a combinations-style enumeration as identities (set elements / dict keys) without making them canonical (frozenset, or sorted); when the enumerated members come from a set, the order inside a tuple is the hash order, so the same face reached twice can appear as (a, b) and (b, a) and is counted or kept twice - the result then depends on labels and insertion order",
                      "raw combination tuples used as identities")
+        from .common import oriented_pairs_from_unordered
+
+        pattern_lint(res, PROP, "K-PAIR", fns, oriented_pairs_from_unordered,
+                     "def f(H, k):\n    members = H.edges.members(dtype=dict)\n    return [[k[a], k[b]] for e in H.edges for a, b in combinations(members[e], 2)]\n",
+                     lambda nd: f"`{unparse(nd, 60)}` records the two elements of a pair drawn with combinations() from a member set in different positions; which of the two comes first is the hash order of the labels, so the recorded orientation (and every statistic of the two columns taken separately) changes under relabelling - enumerate both orientations (permutations) or combine the two symmetrically",
+                     "oriented pairs drawn from unordered member sets")
     return res
 
 
